@@ -1,8 +1,9 @@
 #!/usr/bin/env python3
 """par_run.py [-j N] <jobs-file>   — development tool, not registered in MANIFEST.json.
 
-Runs many checks in parallel, each in its own sandbox: a copy of /verif under /tmp/vpar-<k>/verif
-and a scratch git worktree of /repo under /tmp/vpar-<k>/repo. /repo itself and /verif's evidence
+Runs many checks in parallel, each in its own sandbox: a copy of /verif under /tmp/vpar-<pid>-<k>/verif
+and a scratch git worktree of /repo under /tmp/vpar-<pid>-<k>/repo (so that two invocations do not
+share sandboxes). /repo itself and /verif's evidence
 are never touched. One job per line:
 
     <label> <patch-file or -> <property> [seed] [tier]
@@ -36,7 +37,7 @@ def main():
     results = []
 
     def worker(k):
-        base = "/tmp/vpar-%d" % k
+        base = "/tmp/vpar-%d-%d" % (os.getpid(), k)
         shutil.rmtree(base, ignore_errors=True)
         os.makedirs(base)
         sh(["rsync", "-a", "--exclude", ".git", "--exclude", "work", "--exclude", "replays", "--exclude", "seeded", "/verif/", base + "/verif/"])
